@@ -212,11 +212,26 @@ class Interval(Operation):
 
 class Exists(Operation):
     def __init__(self, query):
-        self.query = query
         super().__init__(op='exists', args=[query])
+
+    @property
+    def query(self):
+        # the sub-select is the argument of the operation: a visitor that replaces it there replaces it for the renderer too
+        return self.args[0]
+
+    @query.setter
+    def query(self, value):
+        self.args[0] = value
 
 
 class NotExists(Operation):
     def __init__(self, query):
-        self.query = query
         super().__init__(op='not exists', args=[query])
+
+    @property
+    def query(self):
+        return self.args[0]
+
+    @query.setter
+    def query(self, value):
+        self.args[0] = value
